@@ -13,6 +13,7 @@ from ..impl import pipeline_cases as G
 from ..translate import c01 as tr
 
 PROPERTY = "C01"
+CASE_TIMEOUT = 300  # s of wall clock per case in pool workers (runner watchdog): a case that spins forever is a verdict, not exit 2
 THEOREM_MODULE = "NemoVerif.Theorems.C01"
 METHOD = "C01.conv"
 RULE = ("case = (Colang version, Colang 1.0 generation mode (task prompts / passthrough chat, completion, function / single call), system+context message in front, dialog rails on/off, enable_rails_exceptions, ordered input/output rail lists incl. permuted and repeated "
